@@ -22,7 +22,8 @@ from . import c02
 PROP = "C07"
 CLAUSES = {"EnvShell", "EnvArgv", "EnvCwd", "EnvName", "EnvOut", "EnvDeps", "LibAgrees"}
 
-ARG_POOL = ["x", "7", "-3", "2.5", "a_b", "k-z", True, False, 0, 12, 1.5, "Z9", "1e3"]
+# values of different types that compare equal (True == 1 == 1.0, False == 0 == 0.0 == -0.0) sit next to each other on purpose
+ARG_POOL = ["x", "7", "-3", "2.5", "a_b", "k-z", True, False, 0, 12, 1.5, "Z9", "1e3", 1.0, 0.0, -0.0, 1, True, 1.0]
 KEY_POOL = ["threads", "mem", "k_1", "zeta", "alpha", "B"]
 
 PROBE = r'''
